@@ -26,6 +26,7 @@ import (
 
 	"github.com/ErdemOzgen/blackdagger/internal/dag"
 	"github.com/ErdemOzgen/blackdagger/internal/persistence/jsondb"
+	"github.com/ErdemOzgen/blackdagger/internal/persistence/local"
 	"github.com/ErdemOzgen/blackdagger/internal/sock"
 )
 
@@ -44,6 +45,8 @@ type lcase struct {
 	BStepMs      int `json:"bStepMs"`      // > 0: the second process's steps and handler sleep this long instead
 	ThirdAfterMs int `json:"thirdAfterMs"` // > 0: a third `start` (agent C) is launched that long after the second
 	Retention    int `json:"retention"`    // >= 0: `histRetentionDays: N` in the DAG (0 = the loader's default, 30 days); -1: not written
+	Resave       string `json:"resave"`    // before the second command the DAG file is replaced by a NEW inode: "" | rename | updatespec
+	FreezeMs     int    `json:"freezeMs"`  // > 0: the first run's process is SIGSTOPped while the second command runs (resumed when it has exited, at the latest after that long)
 	BVia         string `json:"bVia"`      // the second command's path to the SAME file: "" plain | dirlink | filelink | hardlink
 	BackdateH    int `json:"backdateH"`    // > 0: just before the second command every file under the data dir gets an mtime that many hours in the past
 }
@@ -81,6 +84,11 @@ type result struct {
 	AnsAfterB   bool           `json:"ansAfterB"`   // an endpoint answered after B exited (while A alive)
 	AnsPidAfter int            `json:"ansPidAfter"` // pid reported by that answer
 	AnsT        float64        `json:"ansT"`        // wall-clock time at which that probe was sent
+	BExitT      float64        `json:"bExitT"`      // wall-clock time at which the second command had exited
+	APid        int            `json:"aPid"`        // pid the first run's endpoint reported before the second command
+	ThawedEarly bool           `json:"thawedEarly"` // the safety timer resumed the first run before the second command had exited
+	Frozen      bool           `json:"frozen"`      // the first run was stopped during the second command's whole life
+	InodeChanged bool          `json:"inodeChanged"` // the DAG path names another inode than when the first run started
 	HistBeforeB []string       `json:"histBeforeB"` // history files when the second command was launched (after backdating)
 	HistAfterB  []string       `json:"histAfterB"`  // history files right after the second command exited
 	StoreReqs   []string       `json:"storeReqs"`   // request ids the REAL history store lists right after the second command exited
@@ -592,7 +600,44 @@ exit 0
 		_, e := os.Lstat(sockPath)
 		res.SockAtB = e == nil
 		if c.Phase == "steps" || c.Phase == "handler" {
-			res.AnsBeforeB, _ = probe(sockPath)
+			res.AnsBeforeB, res.APid = probe(sockPath)
+		}
+	}
+	if c.Resave != "" {
+		// the file is saved again the way the web UI / editors do it: a new file renamed over the old one
+		ino := func() uint64 {
+			var st syscall.Stat_t
+			_ = syscall.Stat(dagFile, &st)
+			return st.Ino
+		}
+		before := ino()
+		spec, _ := os.ReadFile(dagFile)
+		spec = append(spec, []byte("# saved again\n")...)
+		if c.Resave == "updatespec" {
+			if err := local.NewDAGStore(&local.NewDAGStoreArgs{Dir: filepath.Join(home, "dags")}).UpdateSpec("d", spec); err != nil {
+				res.Err = "UpdateSpec: " + err.Error()
+				return
+			}
+		} else {
+			tmp := dagFile + ".tmp"
+			_ = os.WriteFile(tmp, spec, 0644)
+			if err := os.Rename(tmp, dagFile); err != nil {
+				res.Err = "rename: " + err.Error()
+				return
+			}
+		}
+		res.InodeChanged = ino() != before
+	}
+	thaw := func() {}
+	if c.FreezeMs > 0 && res.APid > 0 {
+		pid := res.APid
+		if err := syscall.Kill(pid, syscall.SIGSTOP); err == nil {
+			res.Frozen = true
+			var once sync.Once
+			thaw = func() { once.Do(func() { _ = syscall.Kill(pid, syscall.SIGCONT) }) }
+			defer thaw()
+			timer := time.AfterFunc(time.Duration(c.FreezeMs)*time.Millisecond, func() { res.ThawedEarly = true; thaw() })
+			defer timer.Stop()
 		}
 	}
 	histFiles := func() []string {
@@ -641,6 +686,13 @@ exit 0
 	if !pb.wait(40 * time.Second) {
 		res.Err = "B did not finish"
 		return
+	}
+	res.BExitT = float64(time.Now().UnixNano()) / 1e9
+	if res.Frozen {
+		early := res.ThawedEarly
+		thaw()
+		res.ThawedEarly = early
+		time.Sleep(200 * time.Millisecond)
 	}
 	if c.Phase != "together" {
 		res.HistAfterB = histFiles()
